@@ -56,6 +56,18 @@ CHECKS = {
          "run on the real GCodeBuilder with real files in a scratch directory; recorders are compared after every call, file contents after flush and teardown.",
          "Trusted: the reference model's reading of 'lines written so far' for a path-based file (per session: the writer truncates when it re-opens); local filesystem semantics.",
          "DESIGN.md §5 C14"),
+ "C15": ("E2", "model_checking",
+         "stateless deviation-bounded exploration of thread schedules and reply latencies of the real printcore threads under a deterministic baton scheduler, x enumerated fault sets",
+         "The real printcore (harness, read, print and send threads) streams small jobs to a fake serial device driving a line-number/checksum firmware model; for every configuration (job, dialect, greeting, "
+         "set of corrupted transmissions, default policy) every schedule within the stated number of deviations is run to completion and the wire log, the firmware's accepted log and termination are checked.",
+         "Trusted: scheduler shims (thread switches only at scheduling points, never inside a source line), firmware model, time abstraction (sleeps / read time-outs as yields). Known findings: tail loss when the sender runs one line ahead.",
+         "DESIGN.md §5 C15"),
+ "C16": ("E2", "model_checking",
+         "stateless deviation-bounded exploration of the real PrintrunWriter + printcore threads over a fake device, x enumerated device behaviours per statement and latency regimes",
+         "Statement histories with every device behaviour (ok, status, report, error/alarm/!!, Marlin Error+ok, connection loss) at every position run on the real writer; at the return of every write() the oracle checks, from "
+         "tagged firmware replies, that the statement's own acknowledgement was consumed, readings are available, errors surface in the right call, nothing hangs; all schedules within the deviation bound.",
+         "Trusted: scheduler shims, tagged firmware model, time abstraction. Known findings: stale ok of the trailing handshake M110 (regime L) and of Marlin's ok after Error.",
+         "DESIGN.md §5 C16"),
  "C17": ("E3", "exploration",
          "exhaustive enumeration of scripted socket behaviours (streams x chunk compositions x no-data-yet placements) through the real Device.readline",
          "Every byte string over {a,LF} up to the stated length, every fragmentation of it into chunks and every placement of up to two 'no data yet' answers, plus long-stream "
@@ -98,6 +110,12 @@ CHECKS = {
          "sagitta bound; for every shape the counts at r, r/2, r/4 must not decrease; both unit systems.",
          "Trusted: closed-form path lengths; the numeric reading of 'about' (1.02 / 0.88); grid values.",
          "DESIGN.md §5 C12"),
+ "C19": ("E3", "exploration",
+         "exhaustive enumeration of small images / point sets x query lattices x lines x tolerances through the real heightmap classes; oracle from the statement only",
+         "Every binary 4x4 image (quick: <=4 set pixels) plus a structured family (hot pixels, gradients, shallow ramps, non-square sizes, 8/16 bit) and every 4-6 point subset of a 3x3 lattice with heights from {0,1,10} are "
+         "queried on half-pixel lattices and sampled along all pairs of lattice end points; stored samples, inside/outside behaviour, path geometry, z = get_depth_at and the drop rule are checked.",
+         "Trusted: the oracle's reading of pixel-centre normalisation (/255, /65535); unfiltered walks obtained from the same API at tolerance 0 (raster) or from an auxiliary steep plane (sparse); finite families only.",
+         "DESIGN.md §5 C19"),
  "C20": ("E1", "model_checking",
          "explicit-state BFS over hook-registration and motion histories on the real builder; recording hooks + independent interpreter + closed-form extrusion amounts",
          "All histories up to the depth bound of add/remove hook, move_hook contexts, moves, rapids, bypass moves, traced shapes, distance/extrusion mode switches and E resets run on the real builder; per emitted G1 "
